@@ -122,7 +122,10 @@ def lattice(line, table, unique_names=False, shape_list=None):
 
 
 def like(pattern, text):
-    return re.fullmatch(".*".join(re.escape(p) for p in pattern.split("%")), text, flags=re.S) is not None
+    """a value containing '%' is documented to be a pattern and is matched by SQLite's LIKE, whose semantics are taken as
+    given: '%' = any run, '_' = any one character, ASCII case-insensitive.  A value without '%' is an exact match."""
+    rx = "".join(".*" if c == "%" else "." if c == "_" else re.escape(c) for c in pattern)
+    return re.fullmatch(rx, text, flags=re.S | re.I) is not None
 
 
 def attr_text(r):
@@ -130,7 +133,8 @@ def attr_text(r):
     if r["table"] == "user":
         return TAG if r["tag"] else None
     if r["table"] == "gff":
-        return f"ID={r['name']}" + (f";{TAG}" if r["tag"] else "")
+        # tagged rows also carry a lower-case key that ends in "id" before the real ID (Ensembl style)
+        return (f"exon_id=E1;ID={r['name']};{TAG}" if r["tag"] else f"ID={r['name']}")
     return ("note " + TAG) if r["tag"] else "gene"  # gb: a json text that holds the note iff tagged
 
 
@@ -186,7 +190,7 @@ def key_of_row(row, with_tag=True):
 def gff_lines(r):
     out = []
     strand = r["strand"] or "."
-    attrs = f"ID={r['name']}" + (f";{TAG}" if r["tag"] else "")
+    attrs = f"exon_id=E1;ID={r['name']};{TAG}" if r["tag"] else f"ID={r['name']}"
     for a, b in r["spans"]:
         out.append("\t".join([r["seqid"], "vf", r["biotype"], str(a + 1), str(b), ".", strand, ".", attrs]))
     return out
@@ -359,6 +363,33 @@ def run_queries(acc, cls, line, seqid_i, biotype_i, name_i, only=None):
         check_query(acc, cls, db, records, q, case0)
 
 
+CONFUSABLE = ["s_1", "sa1", "S_1", "s%1"]  # '_' and '%' are SQL LIKE wildcards; LIKE ignores ASCII case
+
+
+def confusable_records():
+    out = []
+    for seqid in CONFUSABLE[:3]:
+        for name in ("n_1", "na1", "N_1"):
+            for strand in "+-":
+                out.append(rec("user", seqid, "gene", name, ((1, 3),), strand, False))
+    return out
+
+
+def run_confusable(acc, cls, only=None):
+    """identifiers that an SQL pattern match would confuse: an exact (wildcard-free) query value must match exactly"""
+    records = confusable_records()
+    db = build_db(cls, records)
+    case0 = {"part": "confusable", "cls": cls}
+    for seqid in [None] + CONFUSABLE:
+        for name in (None, "n_1", "na1", "N_1", "n%1"):
+            for strand in (None, "+"):
+                q = {"seqid": seqid, "biotype": None, "name": name, "strand": strand, "attributes": None, "start": None, "stop": None, "allow_partial": False}
+                if only is not None and q != only:
+                    continue
+                check_query(acc, cls, db, records, q, case0)
+    acc.sample({"confusable identifiers": CONFUSABLE[:3], "names": ["n_1", "na1", "N_1"], "class": cls}, "confusable")
+
+
 def _kwargs(q):
     kw = {k: v for k, v in q.items() if v is not None and k != "allow_partial"}
     if q["start"] is not None and q["stop"] is not None:
@@ -524,6 +555,23 @@ def check_text(acc, line):
                 if got != want:
                     what = "strand" if got[0] == want[0] else "coordinates"
                     acc.fail(f"parse_location_line: {what} [{cls}]", dict(case, location=loc), {"got": got, "want": want})
+    # a GenBank join that mixes strands has no single strand
+    for sh in shapes(line):
+        if len(sh) != 2:
+            continue
+        (a0, b0), (c0, d0) = sh
+        for loc in (f"join(complement({a0 + 1}..{b0}),{c0 + 1}..{d0})", f"join({a0 + 1}..{b0},complement({c0 + 1}..{d0}))"):
+            acc.case(("gb-mixed", sh, loc))
+            p = call(lambda: parse_location_line(location_line_tokenizer([loc])))
+            case = {"part": "text", "spans": [list(x) for x in sh], "strand": "mixed", "line": line, "location": loc}
+            if p[0] != "ok":
+                acc.fail(f"parse_location_line: raised {p[1]} [two spans, mixed strands]", case, {"got": p[1]})
+                continue
+            got = (sorted(tuple(int(v) for v in c) for c in p[1].get_coordinates()), p[1].strand)
+            if got[0] != sorted(sh):
+                acc.fail("parse_location_line: coordinates [two spans, mixed strands]", case, {"got": got, "want": sorted(sh)})
+            elif got[1] in (1, -1, "+", "-"):
+                acc.fail("parse_location_line: a single strand reported for a location that mixes strands [two spans, mixed strands]", case, {"got": got[1]})
     # through load_annotations into the two native tables: one db per strand holding every shape
     for cls in ("Gff", "Genbank"):
         for strand in "+-":
@@ -913,6 +961,7 @@ def shards(tier, seed):
         for si, bi, ni in itertools.product(range(len(ax["seqid"])), range(len(ax["biotype"])), range(len(ax["name"]))):
             out.append({"part": "query", "cls": cls, "line": b["line"], "seqid": si, "biotype": bi, "name": ni})
         out.append({"part": "count_distinct", "cls": cls, "line": min(b["line"], 4)})
+        out.append({"part": "confusable", "cls": cls})
         for init in initial_dbs(cls):
             out.append({"part": "history", "cls": cls, "init": init, "depth": b["history_depth"], "max_records": b["history_max_records"]})
     return out
@@ -928,6 +977,8 @@ def run_shard(spec, acc):
         run_queries(acc, spec["cls"], spec["line"], spec["seqid"], spec["biotype"], spec["name"])
         acc.sample({"class": spec["cls"], "records": len(universe(spec["cls"], spec["line"])),
                     "fixed": {"seqid": spec["seqid"], "biotype": spec["biotype"], "name": spec["name"]}}, "query")
+    elif part == "confusable":
+        run_confusable(acc, spec["cls"])
     elif part == "count_distinct":
         check_count_distinct(acc, spec["cls"], spec["line"])
     elif part == "history":
@@ -939,11 +990,16 @@ def replay(case):
 
     acc = Acc()
     part = case.get("part")
-    if part == "query":
+    if part == "query" and "q" not in case:
+        run_queries(acc, case["cls"], case["line"], 0, 0, 0)  # the failure was in building / reading back the universal db
+    elif part == "query":
         q = {k: (tuple(v) if isinstance(v, list) else v) for k, v in case["q"].items()}
         ax = query_axes(case["cls"], case["line"])
         run_queries(acc, case["cls"], case["line"], ax["seqid"].index(q["seqid"]), ax["biotype"].index(q["biotype"]),
                     ax["name"].index(q["name"]), only=q)
+    elif part == "confusable":
+        q = {k: (tuple(v) if isinstance(v, list) else v) for k, v in case["q"].items()}
+        run_confusable(acc, case["cls"], only=q)
     elif part == "count_distinct":
         check_count_distinct(acc, case["cls"], case["line"])
     elif part == "text":
